@@ -11,6 +11,7 @@ if [ "$REPO" != "/repo" ]; then sed -i "s#path = \"/repo\"#path = \"$REPO\"#" ha
 [ -x lean/.lake/build/bin/fqmodel ] || ./setup.sh > setup.log 2>&1
 for spec in "$@"; do
   d=${spec%%:*}; props=${spec##*:}
+  case "$d" in /*) ;; *) d="$V/$d";; esac
   if [ -n "$(git -C $REPO status --porcelain --untracked-files=no)" ]; then echo "repo not clean" >> $out; exit 2; fi
   git -C $REPO apply $d/patch.diff || { echo "$d patch does not apply" >> $out; continue; }
   for p in ${props//,/ }; do
